@@ -16,7 +16,7 @@ func TestC02(t *testing.T) {
 		"generated rule sets respect the documented memo contract (DESIGN 2.5 R1-R4)",
 		"the engine's map iteration order cannot be seeded: every case is executed 2-3 times")
 	defer col.Flush()
-	cfg := rsGenCfg{Rules: fullRuleCfg(), GRB: true, Vary: true, JSONFront: true}
+	cfg := rsGenCfg{Rules: fullRuleCfg(), GRB: true, Vary: true, JSONFront: true, Rejected: true}
 	check(t, 0, budget(6000, 80000), func(rt *rapid.T) {
 		c, rs := genRSCase(rt, cfg)
 		maybeFailingConditions(rt, c, rs)
